@@ -61,6 +61,32 @@ pub fn mkfeed() -> i32 {
     0
 }
 
+/// stdin: payloads (hex, one per line); stdout: JSON {payload: [lines of the library's text rendering]} - what the 1090
+/// client has to print after echoing a well-formed line (`println!("{frame}")`), taken from the library itself
+pub fn render() -> i32 {
+    let mut out = serde_json::Map::new();
+    for l in std::io::stdin().lock().lines() {
+        let l = l.unwrap();
+        let h = l.trim();
+        if h.is_empty() {
+            continue;
+        }
+        let bytes = crate::bits::unhex(h);
+        let v = match adsb_deku::Frame::from_bytes(&bytes) {
+            Ok(f) => {
+                let text = format!("{f}\n");
+                let mut lines: Vec<String> = text.split('\n').map(str::to_string).collect();
+                lines.pop(); // the piece after the final newline that println! adds
+                serde_json::json!({"ok": true, "lines": lines})
+            }
+            Err(e) => serde_json::json!({"ok": false, "error": e.to_string()}),
+        };
+        out.insert(h.to_string(), v);
+    }
+    println!("{}", serde_json::Value::Object(out));
+    0
+}
+
 /// args: lat long max_range; stdin: feed lines (`*hex;`); stdout: JSON with the rows the Airplanes
 /// tab has to show and the statistics counters, computed by the real decoder + real tracker.
 pub fn feed2table(args: &[String]) -> i32 {
